@@ -2952,7 +2952,13 @@ def are_co_aligned(*exprs):
 
 
 def is_valid_blockwise_op(expr):
-    return isinstance(expr, Blockwise) and not isinstance(expr, (FromPandas, FromArray))
+    # ``loc`` with known divisions reads partition ``start + i`` of its input
+    # for output partition ``i``: not partitionwise, so it cannot join a group
+    from dask_expr._indexing import LocBase
+
+    return isinstance(expr, Blockwise) and not isinstance(
+        expr, (FromPandas, FromArray, LocBase)
+    )
 
 
 def optimize_blockwise_fusion(expr):
